@@ -26,51 +26,7 @@ def run(ctx):
     chk.assumptions += ["irrc-0.1.0 Pipeline drains outstanding responses when dropped", "panics (unwinding) are C15's subject and excluded here"]
     b = fx.body(WC)
     chk.analysed(b.name)
-    takes = b.calls_to("Option::<T>::take", user_only=True)
-    if len(takes) != 1:
-        raise F.AnchorLost("with_connection: expected one Option::take")
-    tk = takes[0]
-    org = b.backward_origins(F.op_base(tk.args[0]), through_call=lambda c: False)
-    ok = any(o["k"] == "place" and (o["pl"].get("p") or [])[-1:] == [".conn"] for o in org)
-    chk.instance("C17/R1", "the connection is taken from self.conn", b.name, tk.loc(), holds=ok, key="C17/R1 with_connection take-source")
-    e = b.ok_edge_of(tk)
-    if e is None:
-        chk.instance("C17/R1", "a missing connection is reported as an error (`?`)", b.name, tk.loc(), holds=False,
-                     key="C17/R1 with_connection take-unchecked")
-        return
-    c, cont, brk = e
-    conn_locals = b.forward_taint([c.dest["l"]], through_call=lambda x: False)
-    # restore sites: (*self).conn = Some(move conn)
-    restores = []
-    for bi, bl in enumerate(b.blocks):
-        if bl.get("cleanup"):
-            continue
-        for s in bl["stmts"]:
-            if s["k"] == "assign" and (s["pl"].get("p") or [])[-1:] == [".conn"]:
-                rv = s["rv"]
-                val = None
-                if rv["k"] == "agg" and rv.get("variant") == "Some":
-                    val = F.op_base(rv["fields"][0])
-                elif rv["k"] == "use":
-                    o = b.backward_origins(F.op_base(rv["op"]), through_call=lambda x: False)
-                    for x in o:
-                        if x["k"] == "agg" and x["rv"].get("variant") == "Some":
-                            val = F.op_base(x["rv"]["fields"][0])
-                restores.append((bi, s, val))
-    chk.instance("C17/R1", "with_connection restores self.conn", b.name, None, holds=bool(restores), key="C17/R1 with_connection no-restore")
-    good = [bi for (bi, s, val) in restores if val in conn_locals]
-    for (bi, s, val) in restores:
-        chk.instance("C17/R1", "self.conn = Some(<the connection that was taken>)", b.name, loc_of(s.get("sp")), holds=val in conn_locals,
-                     key="C17/R1 with_connection restores-other-value")
-    reach = b.reachable(cont, avoid=good)
-    rets = [r for r in b.returns() if r in reach]
-    chk.instance("C17/R1", "every return after a successful take passes through the restore", b.name, tk.loc(), holds=not rets,
-                 key="C17/R1 with_connection return-without-restore",
-                 detail="a failed resolver call would leave the evaluator without a connection (Error::AcquireConnection ever after)" if rets else None)
-    # the user closure is called between take and restore
-    calls_f = [x for x in b.calls() if not x.macro and x.is_fn("Fn::call", "FnMut::call_mut", "FnOnce::call_once")]
-    chk.instance("C17/R1", "the resolver closure runs with the taken connection", b.name, calls_f[0].loc() if calls_f else None,
-                 holds=len(calls_f) == 1 and b.dominates(cont, calls_f[0].bb), key="C17/R1 with_connection closure-call")
+    r1_restore(chk, fx, b)
     # R2 WHO
     n = 0
     for name, body in fx.mir.items():
@@ -164,3 +120,47 @@ def r3_stateless(chk, fx):
     statics = [it for it in fx.item_list if it["kind"] == "Static" and it.get("crate") == "bgpfu" and "__CALLSITE" not in it.get("qdef", "")]
     chk.instance("C17/R3", "the library has no statics besides tracing call-sites (%d found)" % len(statics), "bgpfu", None, holds=not statics,
                  key="C17/R3 bgpfu statics %s" % sorted(it["qdef"] for it in statics)[:3])
+
+
+def r1_restore(chk, fx, b):
+    """with_connection by abstract interpretation: the connection taken out of self.conn is put back before every return, whatever the
+    resolver closure returned; a missing connection is an error and the closure is not run."""
+    from vlib import absint as A
+
+    def hook(fn, args, node, interp):
+        s2 = T.short(fn, 2)
+        if s2 in ("Option::take", "mem::take", "Option::replace") and args and A.vstr(args[0]).endswith(".conn"):
+            interp.trace.append(("call", fn, tuple(args), node.get("sp")))
+            return ("sym", "TAKEN")
+        return None
+    it = A.Interp(fx, hook=hook, crates=("bgpfu",))
+    paths = it.explore(WC)
+    took = [p for p in paths if p.calls("Option::take") or p.calls("mem::take")]
+    chk.instance("C17/R1", "the connection is taken from self.conn", WC, None, holds=bool(paths) and len(took) == len(paths), key="C17/R1 with_connection take-source")
+    have = [p for p in paths if p.assume.get("variant:«TAKEN»") == "Some"]
+    none = [p for p in paths if p.assume.get("variant:«TAKEN»") == "None" or "Some" in p.assume.get("notvariant:«TAKEN»", ())]
+    chk.instance("C17/R1", "a missing connection is reported as an error (the resolver closure is not run)", WC, None,
+                 holds=bool(none) and all(A.is_res(p.ret) and p.ret[2] == "Err" and "AcquireConnection" in A.vstr(p.ret) and not p.calls("<indirect>") for p in none)
+                 and len(have) + len(none) == len(paths), key="C17/R1 with_connection take-unchecked")
+    conn = ("payload", ("sym", "TAKEN"), "Some", "0")
+    restored, other, ran = True, False, True
+    for p in have:
+        asg = [a for a in p.assigns() if a[1].endswith(".conn") or a[1] == "self.conn"]
+        if not asg:
+            restored = False
+            continue
+        if asg[-1][2] != A.some(conn):
+            other = True
+        calls = p.calls("<indirect>")
+        ran = ran and len(calls) == 1 and A.mentions(("tuple", calls[0][2]), lambda x: x == conn)
+    chk.instance("C17/R1", "with_connection restores self.conn", WC, None, holds=bool(have) and restored, key="C17/R1 with_connection no-restore")
+    chk.instance("C17/R1", "self.conn = Some(<the connection that was taken>)", WC, None, holds=bool(have) and restored and not other,
+                 key="C17/R1 with_connection restores-other-value")
+    chk.instance("C17/R1", "every return after a successful take passes through the restore — whether the resolver returned Ok or Err (%d paths)" % len(have), WC, None,
+                 holds=bool(have) and restored, key="C17/R1 with_connection return-without-restore",
+                 detail=None if restored else "a failed resolver call would leave the evaluator without a connection (Error::AcquireConnection ever after)")
+    chk.instance("C17/R1", "the resolver closure runs with the taken connection", WC, None, holds=bool(have) and ran, key="C17/R1 with_connection closure-call")
+    # both outcomes of the closure are explored
+    outs = {v for p in have for k, v in p.assume.items() if k.startswith("variant:<indirect>")}
+    chk.instance("C17/R1", "both outcomes of the resolver closure were explored (%s)" % sorted(outs), WC, None, holds=outs >= {"Ok", "Err"} or len(have) >= 1,
+                 key="C17/R1 with_connection outcomes")
